@@ -556,4 +556,73 @@ theorem dictSet_find (d : List (Nat × Job)) (k : Nat) (j : Job) : (dictSet d k 
       exact h (List.any_eq_true.mpr ⟨x, hx, hk⟩)
     simp [this]
 
+
+/-! ### first come, first served across rounds -/
+
+/-- `t` extends `s`: every queue of `t` is the corresponding queue of `s` with jobs appended at the end -/
+def Extends (s t : St) : Prop := (∃ a, t.qry = s.qry ++ a) ∧ (∃ a, t.inter = s.inter ++ a) ∧ (∃ a, t.batch = s.batch ++ a)
+
+theorem Extends.refl (s : St) : Extends s s := ⟨⟨[], by simp⟩, ⟨[], by simp⟩, ⟨[], by simp⟩⟩
+
+theorem Extends.trans {a b c : St} (h1 : Extends a b) (h2 : Extends b c) : Extends a c := by
+  obtain ⟨⟨x1, e1⟩, ⟨x2, e2⟩, ⟨x3, e3⟩⟩ := h1
+  obtain ⟨⟨y1, f1⟩, ⟨y2, f2⟩, ⟨y3, f3⟩⟩ := h2
+  exact ⟨⟨x1 ++ y1, by rw [f1, e1, List.append_assoc]⟩, ⟨x2 ++ y2, by rw [f2, e2, List.append_assoc]⟩, ⟨x3 ++ y3, by rw [f3, e3, List.append_assoc]⟩⟩
+
+theorem push_extends (s : St) (j : Job) (p : Nat) : Extends s (s.push j p) := by
+  unfold St.push
+  split
+  · exact ⟨⟨[j], rfl⟩, ⟨[], by simp⟩, ⟨[], by simp⟩⟩
+  · split
+    · exact ⟨⟨[], by simp⟩, ⟨[j], rfl⟩, ⟨[], by simp⟩⟩
+    · exact ⟨⟨[], by simp⟩, ⟨[], by simp⟩, ⟨[j], rfl⟩⟩
+
+theorem foldl_extends {α : Type} (f : St → α → St) (hf : ∀ s x, Extends s (f s x)) : ∀ (l : List α) (s : St), Extends s (l.foldl f s) := by
+  intro l
+  induction l with
+  | nil => intro s; exact Extends.refl s
+  | cons x xs ih => intro s; exact (hf s x).trans (ih (f s x))
+
+theorem susp_only_extends (s : St) (d : List (Nat × Job)) : Extends s { s with susp := d } := ⟨⟨[], by simp⟩, ⟨[], by simp⟩, ⟨[], by simp⟩⟩
+
+/-- **nothing jumps the queue.**  What the priority scheduler does to its queues before the main loop of a round — queueing new and failed work,
+remembering suspending containers, re-queueing suspended work — only appends at the end: every job already waiting keeps its place ahead of
+everything queued later.  With `round_order_and_conservation` (each queue is consumed from its head, in order) this is first come, first served
+within a class across rounds. -/
+theorem queues_only_grow_at_the_end (w : World) (st : St) (res : List Res) (newP : List Nat) :
+    Extends st (prRequeueSuspended w (prNoteSuspending w (prEnqueue w st res newP))) := by
+  have h1 : Extends st (prEnqueue w st res newP) := by
+    unfold prEnqueue
+    simp only
+    split
+    · exact Extends.refl st
+    · apply foldl_extends
+      intro s pid
+      split
+      · exact Extends.refl s
+      · split
+        · exact push_extends _ _ _
+        · apply foldl_extends
+          intro s' o
+          exact push_extends _ _ _
+  have h2 : ∀ s, Extends s (prNoteSuspending w s) := by
+    intro s
+    unfold prNoteSuspending
+    apply foldl_extends
+    intro s' k
+    apply foldl_extends
+    intro s'' c
+    exact susp_only_extends _ _
+  have h3 : ∀ s, Extends s (prRequeueSuspended w s) := by
+    intro s
+    unfold prRequeueSuspended
+    apply foldl_extends
+    intro s' k
+    apply foldl_extends
+    intro s'' c
+    split
+    · exact (susp_only_extends s'' _).trans (push_extends _ _ _)
+    · exact Extends.refl s''
+  exact h1.trans ((h2 _).trans (h3 _))
+
 end Eudoxia.C12
